@@ -85,7 +85,7 @@ def run(res):
     vals, err = run_consts()
     if err:
         res.brk("translator", err)
-    common.prove(res)
+    common.prove(res, drivers=["tls"])
     n = 160 if res.tier == "quick" else 1500
     tls_common.campaign(res, WANT, n, os.path.join(common.CORPUS, "C10"))
     # concurrent create/delete: interference injected at the free-list CAS points
